@@ -16,5 +16,6 @@ package entry
 //@   requires l != nil && validClock(b)
 //@   pure
 //@   ensures [clock-compare-is-lexicographic] sign(result) == clockOrder(l.Time, bytes(l.ID), b.(*LamportClock).Time, bytes(b.(*LamportClock).ID))
+//@   ensures [result-can-be-negated] result > 0 - 9223372036854775807
 //@   observe l.Time, b.(*LamportClock).Time
 //@   replay clockcompare
